@@ -7,7 +7,12 @@ pub mod c06;
 pub mod c07;
 pub mod c08;
 pub mod c09;
+pub mod c10;
 pub mod c11;
+pub mod c12;
+pub mod c13;
+pub mod c15;
+pub mod c16;
 pub mod c17;
 
 use crate::fw::Ctx;
@@ -22,7 +27,12 @@ pub fn dispatch(ctx: &Ctx) -> i32 {
         "C07" => c07::run(ctx),
         "C08" => c08::run(ctx),
         "C09" => c09::run(ctx),
+        "C10" => c10::run(ctx),
         "C11" => c11::run(ctx),
+        "C12" => c12::run(ctx),
+        "C13" => c13::run(ctx),
+        "C15" => c15::run(ctx),
+        "C16" => c16::run(ctx),
         "C17" => c17::run(ctx),
         other => {
             println!("INCONCLUSIVE property={} no such check", other);
